@@ -118,6 +118,156 @@ def moved_items(parsed):
     return out
 
 
+def renamed_fns(parsed):
+    """Function-rename normal form: {path in this tree: path in the reference tree} for a function Q that the reference tree does
+    not have while a function P of the reference tree has become a plain forwarder to it (`#[deprecated] fn old(&self, a) { self.new(a)
+    }`): P's own parameters handed on in order, the result handed back, nothing else.  Q then IS P (the forwarder is dropped)."""
+    known = known_fns()
+    out = {}
+    drop = []
+    for n, d in parsed.items():
+        pre = '' if d['kind'] == 'lib' else d['kind'] + '::'
+        for rb in d['bodies']:
+            if rb.get('def_kind') not in ('Fn', 'AssocFn') or (pre + rb['path']) not in known:
+                continue
+            calls = [bb['term'] for bb in rb['blocks'] if not bb.get('cleanup') and bb['term']['t'] == 'call']
+            if len(calls) != 1:
+                continue
+            t = calls[0]
+            fc = t['func']
+            if fc.get('k') != 'const' or not fc.get('fn') or not fc.get('fn_local', True):
+                continue
+            q = (fc.get('resolved') or fc['fn']).replace('packing::', '')
+            q = q.split('::<')[0] if q.endswith('>') and '::<' in q else q
+            if (pre + q) in known or q == rb['path'] or '{closure' in q or '<' in q.rsplit('::', 1)[-1]:
+                continue
+            nargs = rb.get('arg_count', 0)
+            if len(t['args']) != nargs or nargs == 0:
+                continue
+            # every argument is parameter i (possibly re-borrowed / copied through one temporary)
+            defs = {}
+            for bb in rb['blocks']:
+                for st in bb['stmts']:
+                    if st['s'] == 'assign' and not st['place']['p']:
+                        defs.setdefault(st['place']['l'], []).append(st['rv'])
+
+            def param_of(op, depth=0):
+                if 'l' not in op or depth > 3:
+                    return None
+                pr = [e for e in op['p'] if e != 'deref']
+                if pr:
+                    return None
+                if 1 <= op['l'] <= nargs:
+                    return op['l']
+                ds = defs.get(op['l']) or []
+                if len(ds) != 1:
+                    return None
+                rv = ds[0]
+                if rv['r'] == 'use':
+                    return param_of(rv['a'], depth + 1)
+                if rv['r'] == 'ref' and not [e for e in rv['place']['p'] if e != 'deref']:
+                    return param_of({'l': rv['place']['l'], 'p': []}, depth + 1)
+                return None
+            if [param_of(a) for a in t['args']] != list(range(1, nargs + 1)):
+                continue
+            dl = t['dest']['l'] if not t['dest']['p'] else None
+            if dl != 0 and not (dl is not None and any(rv['r'] == 'use' and rv['a'].get('l') == dl and not rv['a']['p']
+                                                       for rv in defs.get(0, []))):
+                continue
+            # same owner (method renamed within its impl, or a free function within its module)
+            if rb['path'].rsplit('::', 1)[0] != q.rsplit('::', 1)[0]:
+                continue
+            if q in out and out[q] != rb['path']:
+                continue
+            out[q] = rb['path']
+            drop.append((n, rb['path']))
+    for n, pth in drop:
+        parsed[n]['bodies'] = [rb for rb in parsed[n]['bodies'] if not (rb['path'] == pth or rb['path'].startswith(pth + '::{closure'))]
+    return out
+
+
+_KNOWN_FIELDS = None
+
+
+def known_fields():
+    """{struct path of the reference tree: [(field name, field type), ...]} (pk/known_fields.txt)."""
+    global _KNOWN_FIELDS
+    if _KNOWN_FIELDS is None:
+        _KNOWN_FIELDS = {}
+        p = os.path.join(os.path.dirname(os.path.abspath(__file__)), 'known_fields.txt')
+        if os.path.exists(p):
+            for ln in open(p):
+                if ln.startswith('#') or not ln.strip():
+                    continue
+                parts = ln.rstrip('\n').split('\t')
+                _KNOWN_FIELDS[parts[0]] = [tuple(x.split('|', 1)) for x in parts[1:]]
+    return _KNOWN_FIELDS
+
+
+def renamed_fields(parsed):
+    """Field-rename normal form: {struct path: {name in this tree: name in the reference tree}} for the structs of the reference tree
+    whose fields have the same types in the same order as there while some are spelled differently (a readability rename,
+    `#[serde(rename = ..)]` keeping the files as they were).  A reference name that shows up at another position means the
+    fields were re-ordered, not renamed: no mapping then."""
+    ref = known_fields()
+    out = {}
+    for d in parsed.values():
+        if d['kind'] != 'lib':
+            continue
+        for a in d.get('adts') or []:
+            r = ref.get(a['path'])
+            fl = a.get('fields') or []
+            if not r or len(a.get('variants') or []) > 1 or len(fl) != len(r):
+                continue
+            names = [x['name'] for x in fl]
+            rnames = [x[0] for x in r]
+            if names == rnames or any(x.get('ty') != t for x, (_n, t) in zip(fl, r)):
+                continue
+            if any(n in rnames and rnames.index(n) != i for i, n in enumerate(names)):
+                continue
+            if len(set(names)) != len(names):
+                continue
+            out[a['path']] = {n: rn for n, rn in zip(names, rnames) if n != rn}
+    return out
+
+
+def _apply_field_renames(node, ren):
+    """Rewrite field names in place: ADT descriptions, place projections ({'f', 'n', 'of'}) and struct aggregates."""
+    def adt_of(ty):
+        t = (ty or '').replace('packing::', '')
+        for pre in ('&mut ', '&'):
+            while t.startswith(pre):
+                t = t[len(pre):]
+        if t.startswith("'"):
+            t = t.split(' ', 1)[1] if ' ' in t else t
+        i = t.find('<')
+        return t[:i] if i >= 0 else t
+    stack = [node]
+    while stack:
+        x = stack.pop()
+        if isinstance(x, dict):
+            if 'n' in x and 'of' in x and 'f' in x:
+                m = ren.get(adt_of(x['of']))
+                if m and x['n'] in m:
+                    x['n'] = m[x['n']]
+            if x.get('agg') == 'adt' and isinstance(x.get('fields'), list):
+                m = ren.get(adt_of(str(x.get('adt') or '')))
+                if m:
+                    x['fields'] = [m.get(n, n) for n in x['fields']]
+            if isinstance(x.get('path'), str) and x.get('kind') == 'adt' and isinstance(x.get('variants'), list) and x['path'] in ren:
+                for v in x['variants']:
+                    for fl in (v.get('fields') or []) if isinstance(v, dict) else []:
+                        if isinstance(fl, dict) and fl.get('name') in ren[x['path']]:
+                            fl['name'] = ren[x['path']][fl['name']]
+            if isinstance(x.get('path'), str) and isinstance(x.get('fields'), list) and x['path'] in ren:
+                for fl in x['fields']:
+                    if isinstance(fl, dict) and fl.get('name') in ren[x['path']]:
+                        fl['name'] = ren[x['path']][fl['name']]
+            stack.extend(x.values())
+        elif isinstance(x, list):
+            stack.extend(x)
+
+
 def _is_free_fn(p):
     segs = p.split('::')
     return len(segs) >= 2 and all(s[:1].islower() or s[:1] == '_' for s in segs)
@@ -167,7 +317,28 @@ class Facts:
                 pat = _re.compile('(?<![A-Za-z0-9_])(' + '|'.join(_re.escape(k) for k in sorted(self.moved, key=len, reverse=True)) +
                                   ')(?![A-Za-z0-9_])')
                 texts = {n: pat.sub(lambda m: self.moved[m.group(1)], t) for n, t in texts.items()}
-                parsed = None
+                parsed = {n: json.loads(t) for n, t in texts.items()}
+            # function-rename normal form: a reference function that has become a forwarder to a new name
+            self.renamed_fns = renamed_fns(parsed)
+            if self.renamed_fns:
+                import re as _re
+                texts = {n: json.dumps(d) for n, d in parsed.items()}
+                subst = dict(self.renamed_fns)
+                # (the other crates of the workspace name a library item by its visible path, e.g. the re-export at the crate root:
+                # `packing::MCOptimiser::optimise`)
+                for q, p_ in self.renamed_fns.items():
+                    qs, ps = q.split('::'), p_.split('::')
+                    if len(qs) >= 2 and qs[-2][:1].isupper():
+                        subst.setdefault('packing::' + '::'.join(qs[-2:]), 'packing::' + '::'.join(ps[-2:]))
+                pat = _re.compile('(?<![A-Za-z0-9_])(' + '|'.join(_re.escape(k) for k in sorted(subst, key=len, reverse=True)) +
+                                  ')(?![A-Za-z0-9_])')
+                texts = {n: pat.sub(lambda m: subst[m.group(1)], t) for n, t in texts.items()}
+                parsed = {n: json.loads(t) for n, t in texts.items()}
+            # field-rename normal form (after the paths are the reference's)
+            self.renamed = renamed_fields(parsed)
+            if self.renamed:
+                for d in parsed.values():
+                    _apply_field_renames(d, self.renamed)
         else:
             parsed = None
         for n in names:
